@@ -376,9 +376,10 @@ class Fn:
 
 
 class TU:
-    def __init__(self, facts, path, name):
+    def __init__(self, facts, path, name, transform=None):
         self.facts = facts; self.name = name
         d = json.load(open(path))
+        if transform is not None: d = transform(d)
         self.ex = d['exprs']
         self.functions = [Fn(self, f) for f in d['functions']]
         self.classes = d['classes']
@@ -387,13 +388,13 @@ class TU:
 
 
 class Facts:
-    def __init__(self, facts_dir, tus):
+    def __init__(self, facts_dir, tus, transform=None):
         from frontend import fact_name
-        self.tus = []
+        self.tus = []; self.dir = facts_dir; self.roles = {}
         for t in tus:
             p = os.path.join(facts_dir, fact_name(t))
             if not os.path.exists(p): raise FileNotFoundError(p)
-            self.tus.append(TU(self, p, t))
+            self.tus.append(TU(self, p, t, transform))
         self.fns = []            # unique functions (first TU wins) keyed by (sig, loc)
         self.by_key = {}
         self.by_name = collections.defaultdict(list)
